@@ -37,6 +37,35 @@ def acts : Sk → List String
 def before (a b : String) (l : List String) : Bool :=
   (l.dropWhile (· != a)).contains b && l.contains a
 
+/-- the top-level statement sequence of a body -/
+def flatSeq : Sk → List Sk
+  | .seq a b => flatSeq a ++ flatSeq b
+  | .skip => []
+  | s => [s]
+
+def isAcq : Sk → Bool
+  | .acq _ => true
+  | _ => false
+
+/-- action names before / after the first top-level acquire (`none` if there is none) -/
+def splitAtAcq (body : Sk) : Option (List String × List String) :=
+  let l := flatSeq body
+  let pre := l.takeWhile (fun s => !isAcq s)
+  match l.dropWhile (fun s => !isAcq s) with
+  | [] => none
+  | _ :: post => some (pre.flatMap acts, post.flatMap acts)
+
+/-- `crit` actions occur only after the acquire (and do occur); `recheck` precedes the
+first `crit.head` there -/
+def insideLock (body : Sk) (crit : List String) (recheck : String) : Bool :=
+  match splitAtAcq body with
+  | none => false
+  | some (pre, post) =>
+    crit.all (fun c => !pre.contains c && post.contains c) &&
+    (match crit with
+     | c :: _ => before recheck c post
+     | [] => true)
+
 /-- the name of the release action -/
 def releaseName : String := "releaseLock"
 
@@ -45,6 +74,12 @@ def releases : Sk → Bool
   | .act n => n == releaseName
   | .seq a _ => releases a
   | .fn a => releases a
+  | _ => false
+
+/-- the statement right after the first top-level acquire is a deferred release -/
+def deferRightAfterAcq (body : Sk) : Bool :=
+  match (flatSeq body).dropWhile (fun s => !isAcq s) with
+  | _ :: .dfr a :: _ => releases a
   | _ => false
 
 /-- no lock is acquired inside -/
